@@ -523,7 +523,7 @@ def _shared_source_scenario(rng, w, emit):
         tids.append(len(w.taxa()) - 1)
     emit(["NewList", n])
     l = len(w.lists) - 1
-    for _ in range(rng.randint(1, 2)):
+    for _ in range(rng.randint(1, 3)):
         sub = [t for t in tids if R() < 0.85] or tids[:1]
         rng.shuffle(sub)
         if R() < 0.5:
@@ -543,6 +543,26 @@ def _shared_source_scenario(rng, w, emit):
     rng.shuffle(comps)
     for c in comps:
         emit(["DsAdd", d, c, R() < 0.3])
+    if R() < 0.45:
+        # copy routes (Tree._clone_from) into a FRESH, EMPTY collection, several trees in sequence
+        emit(["NewNs", R() < 0.15])
+        e = len(w.nss) - 1
+        emit(["NewList", e])
+        le = len(w.lists) - 1
+        x = R()
+        if x < 0.3:
+            emit(["Extend", le, ["SrcList", l]])
+        elif x < 0.5:
+            emit(["IAdd", le, ["SrcList", l]])
+        elif x < 0.7:
+            emit(["Add", le, ["SrcList", l]])
+        elif x < 0.9:
+            emit(["SetSlice", le, rng.choice([None, 0]), rng.choice([None, 0]), ["SrcList", l]])
+        else:
+            emit(["GetSlice", le, None, None])
+            emit(["Extend", len(w.lists) - 1, ["SrcList", l]])
+        if R() < 0.5:
+            emit([rng.choice(["Extend", "IAdd"]), le, ["SrcList", l]])
     if R() < 0.4:
         # straight away, in one of the ways the memo can be shared / not shared
         x = R()
@@ -843,8 +863,16 @@ def _classify(case, step, op, viol, prev_dump, dump, out):
             return "attached-dataset-foreign-component"
         if name in ("MigrateList", "MigrateMat"):
             return "attached-dataset-component-migrated-away"
-        if name == "Unify" and not op[3]:
-            return "unify-without-attach-leaves-stale-attached-namespace"
+        if name == "Unify":
+            di = viol[1]
+            col = 2 if kind == "ds-list-ns" else 3
+            comp = dump["dss"][di][col][viol[2]]
+            if di != op[1] and comp in dump["dss"][op[1]][col]:
+                # the component is held by two data sets: unify on one of them migrated it away from the
+                # namespace the other one is attached to
+                return "attached-dataset-component-migrated-away"
+            if di == op[1] and not op[3]:
+                return "unify-without-attach-leaves-stale-attached-namespace"
     if name.startswith("Purge") and kind in ("list-member-taxon", "matrix-row", "removed-tree-taxon", "tree-taxon"):
         return "purge-removes-taxa-used-by-other-holders"
     if kind in ("list-member-ns", "list-member-taxon") and prev_dump is not None:
@@ -894,8 +922,81 @@ def oracle(case, obs):
             u = _unification(pool, op, prev_dump, dump)
             if u:
                 return ("after step %d %s: %s" % (step, op, u[0]), u[1] + ":" + op[0])
+        if prev_dump is not None:
+            u = _route_members(pool, op, prev_dump, dump) or _clone_label_map(pool, op, prev_dump, dump)
+            if u:
+                return ("after step %d %s (outcome %s): %s" % (step, op, o["out"], u[0]), u[1] + ":" + op[0])
         prev = cur
         prev_dump = dump
+    return None
+
+
+def _by_label_route(op):
+    """does the step create taxa only through a look-up by label (require_taxon / the readers' symbol map)?"""
+    name = op[0]
+    if name in ("Extend", "IAdd", "Add", "SetItem", "SetSlice", "GetSlice", "ReadList", "DsReadTrees", "DsReadFasta", "Unify"):
+        return True
+    if name == "Append":
+        return op[3] == ["SMigrate", True]
+    if name == "Insert":
+        return op[4] == ["SMigrate", True]
+    if name in ("MigrateList", "MigrateTree", "MigrateMat"):
+        return bool(op[3])
+    if name in ("ReconstructList", "ReconstructTree", "ReconstructMat"):
+        return bool(op[2])
+    return False
+
+
+def _route_members(pool, op, before, after):
+    """Whatever a copy / migration / read adds to a namespace was looked up by label first: a taxon is only
+    created when no member matches under the namespace's case rule, so no member the step adds is equal
+    (under that rule) to another member - else label-equal items sit on different taxa."""
+    if not _by_label_route(op):
+        return None
+    lab = after["lab"]
+    for n, (cs, members) in enumerate(after["ns"]):
+        old = before["ns"][n][1] if n < len(before["ns"]) else []
+        fresh = [x for x in members if x not in old]
+        keyf = (lambda x: pool[lab[x]]) if cs else (lambda x: pool[lab[x]].lower())
+        for x in fresh:
+            twins = [y for y in members if y != x and keyf(y) == keyf(x)]
+            if twins:
+                return ("namespace %d (%s) gained taxon %r although it holds %r: equal labels now sit on different taxa"
+                        % (n, "case-sensitive" if cs else "case-insensitive", pool[lab[x]], [pool[lab[y]] for y in twins]),
+                        "route-created-duplicate-member")
+    return None
+
+
+def _clone_label_map(pool, op, before, after):
+    """Trees cloned from a TreeList in one step (extend / += / + / slice assignment): over all clones,
+    source labels equal under the target's case rule are on ONE target taxon, nothing dropped."""
+    name = op[0]
+    if name not in ("Extend", "IAdd", "Add", "SetSlice") or op[-1][0] != "SrcList":
+        return None
+    src_list = op[-1][1]
+    nb = len(before["trees"])
+    clones = list(range(nb, len(after["trees"])))
+    sources = list(before["lists"][src_list][1])
+    if name == "Add":
+        sources = list(before["lists"][op[1]][1]) + sources
+    if len(clones) != len(sources):
+        return None
+    lab = after["lab"]
+    seen = {}
+    for c, s0 in zip(clones, sources):
+        tn, refs_c = after["trees"][c]
+        refs_s = before["trees"][s0][1]
+        if before["trees"][s0][0] == tn:
+            continue        # same namespace object: taxa are shared as they are, nothing is looked up
+        cs = after["ns"][tn][0]
+        if len(refs_c) != len(refs_s):
+            return ("clone %d of tree %d has %d taxon references, the original %d" % (c, s0, len(refs_c), len(refs_s)),
+                    "clone-dropped")
+        for x, y in zip(refs_s, refs_c):
+            k = pool[lab[x]] if cs else pool[lab[x]].lower()
+            if seen.setdefault((tn, k), y) != y:
+                return ("source label %r is on taxon %d in one copied tree and on taxon %d in another (namespace %d)"
+                        % (k, seen[(tn, k)], y, tn), "clone-label-split")
     return None
 
 
@@ -1241,6 +1342,11 @@ def fixed_cases():
         yield {"pool": P, "ops": EX_BASE + prefix + [last]}
     for name, prefix, last in SHARED_MEMO:
         yield {"pool": P, "ops": EX_BASE + prefix + [last]}
+    # copies of the trees of the case-sensitive list 2 (A / a) into fresh, empty, case-insensitive lists
+    fresh = [["Append", 2, 2, M1], ["Append", 2, 3, M1], ["NewNs", False], ["NewList", 3]]
+    yield H(*(fresh + [["Extend", 3, ["SrcList", 2]], ["IAdd", 3, ["SrcList", 2]]]))
+    yield H(*(fresh + [["Add", 3, ["SrcList", 2]]]))
+    yield H(*(fresh + [["SetSlice", 3, 0, 0, ["SrcList", 2]], ["NewNs", False], ["MkTree", 4, []], ["MigrateTree", 2, 4, True]]))
     yield H(["Append", 0, 1, ["SMigrate", True]], ["Append", 0, 2, ["SMigrate", True]], ["Append", 1, 3, ["SMigrate", True]])
     yield H(["Append", 2, 0, ["SMigrate", True]], ["Append", 2, 1, ["SAdd"]], ["Pop", 2, -1], ["Pop", 2, 0], ["Pop", 2, 0])
     yield H(["Insert", 0, -1, 1, ["SMigrate", True]], ["Insert", 0, -1, 2, ["SMigrate", False]], ["Insert", 0, -9, 3, ["SAdd"]], ["Insert", 0, 9, 0, ["SBogus"]])
@@ -1351,6 +1457,6 @@ def run(tier, seed, replay=None):
                       rule="operation histories generated online against the live library (set-up of 2-3 namespaces with "
                            "overlapping / disjoint / case-variant labels, trees, lists, a matrix, a data set; then 5..16 "
                            "(quick) / 5..34 (thorough) further operations, 8% / 5% of the choices deliberately hazardous); "
-                           "plus 18 fixed histories (the witnesses of the `_refuted` theorems, the non-vacuity history, one history per group of call sites) for the call sites named in the property; thorough adds every history of length <= 2 over a 53-op alphabet on a prepared state (cut at the first violating step); non-trivial = >= 6 steps, >= 2 "
+                           "plus 21 fixed histories (the witnesses of the `_refuted` theorems, the non-vacuity history, one history per group of call sites) for the call sites named in the property; thorough adds every history of length <= 2 over a 53-op alphabet on a prepared state (cut at the first violating step); non-trivial = >= 6 steps, >= 2 "
                            "namespaces and at least one step that re-mapped or cloned a tree / matrix into a namespace; "
                            "distinct by full case content")
